@@ -4,6 +4,7 @@
 //   fixed-point builds: packets of all encoder replicas byte-identical, PCM of all decoder replicas bit-identical (PLC / FEC included);
 //   float builds: every decoder replica, whatever its level and whatever the encoder's level, ends each packet with the encoder's
 //                 final range and returns the same sample count; (the spread of normally decoded float PCM across levels is recorded as a probe, not judged).
+#include "shim.h"
 #include "session.h"
 
 namespace {
@@ -82,7 +83,20 @@ struct ArchMix {
         // the AVX2 noise-shaping quantiser deliberately does not reproduce an overflow of the C code ("more correct, but it won't overflow
         // like the C code in some rare cases", silk/x86/NSQ_del_dec_avx2.c): only the AVX2 replica of a SILK / hybrid packet differs
         bool others_agree = true; for (size_t b2 = 1; b2 < a; b2++) if (pk[b2] != pk[0]) others_agree = false;
-        bool avx2_silk = loud && a == 4 && a + 1 == encs.size() && others_agree && !pk[0].empty() && (toc_mode(pk[0][0]) != 2 || avx2_state_diverged);   // (multistream: the TOC of the first stream)
+        // (multistream: any stream of the packet coded by the SILK layer)
+        bool any_silk = false;
+        if (!pk[0].empty()) {
+          int off = 0, ns = std::max(1, L.streams);
+          for (int st_ = 0; st_ < ns && off < (int)pk[0].size(); st_++) {
+            unsigned char toc_ = 0; int offs_[48], sizes_[48], po_ = 0, pko_ = 0, pado_ = 0, padl_ = 0;
+            int nfr = opsim_parse_impl(pk[0].data() + off, (int)pk[0].size() - off, st_ < ns - 1, &toc_, offs_, sizes_, &po_, &pko_, &pado_, &padl_);
+            if (nfr < 0) break;
+            if (toc_mode(toc_) != 2) any_silk = true;
+            if (pko_ <= 0) break;
+            off += pko_;
+          }
+        }
+        bool avx2_silk = loud && a == 4 && a + 1 == encs.size() && others_agree && !pk[0].empty() && (any_silk || avx2_state_diverged);
         // once the AVX2 replica's SILK state has diverged through that finding, its later packets (including the CELT-only packets after a
         // mode switch, whose prefill / redundancy comes from the SILK layer) follow from the same divergence and cannot be judged separately
         if (avx2_silk) avx2_state_diverged = true;
